@@ -37,6 +37,8 @@ def run(tier):
     runlib.deviation_must_fail(out, 'C12_Parts', 2, 'NoStdoutRestore')
     out.assumptions = ['stderr is never swapped by the library; it is compared all the same',
                        'the doctest replaces sys.stdout by assignment inside a part; closing the capture stream is outside the property']
+    from . import tracelib
+    tracelib.traced_replay(out, 'C12_Parts<=2', 'C12_Parts', 2, onerrors=('return', 'raise'), modes=('native', 'pytest'))
     return out.finish()
 
 
